@@ -37,9 +37,9 @@ ASSUMPTIONS = ["LP64, CPython 3.12 configuration (CYTHON_ASSUME_SAFE_MACROS/SIZE
 # Model variant describing the tree under test.  Set to 1 when the corresponding
 # proposed_fixes/C15-*.diff has been applied to /repo.
 # (The C15_FX_* environment variables override them for trying a patched scratch worktree.)
-FX_CROP = int(os.environ.get("C15_FX_CROP", "0"))      # C15-crop_slice_length_overflow.diff
+FX_CROP = int(os.environ.get("C15_FX_CROP", "1"))      # C15-crop_slice_length_overflow.diff
 FX_CLAMP = int(os.environ.get("C15_FX_CLAMP", "0"))    # typed_slice_object_bound_overflow (no repair proposed)
-FX_DWRAP = int(os.environ.get("C15_FX_DWRAP", "0"))    # C15-seq_subclass_double_wraparound.diff
+FX_DWRAP = int(os.environ.get("C15_FX_DWRAP", "1"))    # C15-seq_subclass_double_wraparound.diff
 
 MAX = 2 ** 63 - 1
 MIN = -2 ** 63
@@ -409,7 +409,7 @@ def run(ctx):
     import time
     t0 = time.time()
     built = cybuild.build_many(specs, jobs=7)
-    print("[C15] build %.1fs" % (time.time() - t0), flush=True)
+    ctx.note("build %.1fs" % (time.time() - t0))
     for (so, err), sp in zip(built, specs):
         if err is not None:
             ctx.corr_break("build " + sp["name"], sp["name"], str(err)[:1500], "module builds")
@@ -607,7 +607,7 @@ def run(ctx):
     t1 = time.time()
     allq = [e["mq"] for _, es in jobs for e in es if e["mq"]]
     mres = iter(model.batch(allq))
-    print("[C15] prepare+run %d calls / %d cases: %.1fs; model %d queries: %.1fs" % (
+    ctx.note("prepare+run %d calls / %d cases: %.1fs; model %d queries: %.1fs" % (
         len(jobs), sum(len(es) for _, es in jobs), t1 - t0, len(allq), time.time() - t1))
     nbad = {}
     for (call, entries), r in zip(jobs, res):
